@@ -6,23 +6,28 @@ STRUCT = ("Structural clauses only: necessary conditions of the property, decide
 DEG = "abstract interpretation in a homogeneity-degree/unit domain"
 IDX = "symbolic index/polynomial evaluation over the ast"
 STR = "resolved-ast structural rules (def-use, flow-sensitive expansion)"
+SEQ = "symbolic sequence interpretation (row order as a canonical term)"
+BLK = "channel-group typing of block matrices"
+WIN = "window domain for block-Hankel/Toeplitz matrices (polynomial bounds)"
 
 CLAIMS = {
     "C01": (f"{IDX} + {STR}",
             "Shift-invariance structure of the three realisation routines (one matrix, one shift = channel count, up/down roles, QR or pinv form, "
             "C = first block), one truncation index per order, SSI_poles slot discipline, and the normal form of the z->s pole map; all as polynomial/"
             "structural identities valid for every block-row and channel count. Does not decide that identified values equal the system's."),
-    "C02": (f"{DEG} + {STR}",
+    "C02": (f"{DEG} + {SEQ} + {STR}",
             "merge_mode_shapes is homogeneous of degree 1 in the first setup's scale and 0 in every other setup's (the factor is applied in the right "
             "direction), MSF(a,b) ~ b/a, merged Fn/Xi are means over the setup axis and their dispersion a population std divided by the mean; row-order "
             "signature agreement with the name flattening. Optimality on noisy shapes and complex factors are not decided."),
-    "C03": (f"{DEG} + {IDX}",
+    "C03": (f"{DEG} + {IDX} + {SEQ}",
             "SSI_multi_setup re-bases every setup on the first setup's reference block: the global observability matrix is homogeneous in the first "
             "setup's gain alone for cov_mm/cov_R/dat, hence poles independent of per-setup amplitudes; reference/roving index maps and block interleaving "
             "as index identities. Exact identification is not decided."),
-    "C04": (f"{DEG} + {STR}",
+    "C04": (f"{DEG} + {BLK} + {STR}",
             "Every block of the merged PreGER spectrum has the support of the mean reference block (transmissibility of degree 0 in its setup's gain); "
-            "nxseg/method/pov reach the estimator and scipy; the returned grid is the estimator's. Equality with the single-setup matrix is not decided."),
+            "nxseg/method/pov reach the estimator and scipy; the returned grid is the estimator's; typed block structure of the merged matrix (rows = references then every setup's roving sensors, "
+            "columns = references, each roving block = S_mov,ref . inv(S_ref,ref) . mean S_ref,ref, no product/stack of mismatching channel groups). "
+            "Equality with the single-setup matrix is not decided."),
     "C05": (f"{DEG} + {STR}",
             "z->s map normal form of ac2mp_poly (sibling of ssi.ac2mp), joint blanking of unstable eigenvalues and eigenvector columns, dimensionless basis "
             "function, coefficient degrees (alpha ~ 1, beta ~ S), NaN padding of the four tables. Normal equations/companion form correctness not decided."),
@@ -48,7 +53,7 @@ CLAIMS = {
             "SSI_mpe/pLSCF_mpe (int, list, find_min): closeness test against the loop's own frequency, all values of a mode from one (row, column) with "
             "column = requested order and row = nearest pole, appends guarded by the test, slots fed by the table of the same kind, first-qualifying-order "
             "scan, and the hand-over in the four mpe methods. Absolute-vs-relative band of find_min and pLSCF's find_min loop are not decided."),
-    "C12": (IDX,
+    "C12": (f"{WIN} + {DEG}",
             "Lag/length/weight/bounds of every block of the Hankel (cov_mm, dat) and Toeplitz (cov_R) matrices as polynomial identities in (br, channels, "
             "record length): lag i+c+1 resp. br+i-c, equal lengths, uniform weights, windows inside the record, br+1 x br+1 blocks, all-channel rows and "
             "reference columns, R-factor block of the dat method; bilinearity by degree analysis. The projection identity is not decided."),
@@ -72,7 +77,7 @@ CLAIMS = {
     "C18": (f"{DEG} + {STR}",
             "Degree 0 of MAC/MPC/MPD/MCF in each argument's real scale and MSF ~ b/a; every arccos argument clipped, sqrt arguments sums of squares, "
             "per-component quotients guarded (finite, never NaN); MAC row/column/normaliser pairing. Bounds and complex-factor invariance not decided."),
-    "C19": (STR,
+    "C19": (f"{STR} + {SEQ}",
             "Forward presence analysis of the sheet dictionary (every optional-sheet read guarded), zero-basing list covers all index sheets, re-indexing by "
             "the flattened sensor names of what is returned, ValueError-only validation, attribute compatibility with the documented argument types."),
     "C20": (STR,
